@@ -13,6 +13,8 @@ import (
 
 	corev1 "k8s.io/api/core/v1"
 	fakediscovery "k8s.io/client-go/discovery/fake"
+	apiversion "k8s.io/apimachinery/pkg/version"
+	metav1 "k8s.io/apimachinery/pkg/apis/meta/v1"
 	k8stesting "k8s.io/client-go/testing"
 
 	"github.com/NVIDIA/KAI-scheduler/pkg/scheduler"
@@ -226,6 +228,8 @@ type SchedConfig struct {
 	DropPlugins           []string          `json:"drop_plugins,omitempty"`
 	// Usage: historical usage per queue, normalised to cluster capacity (gpu, cpu, memory), served by a usage-db stub
 	Usage map[string][3]float64 `json:"usage,omitempty"`
+	// DRA: the API server serves resource.k8s.io/v1 (set by the generator when the world has ResourceSlices)
+	DRA bool `json:"dra,omitempty"`
 }
 
 // simUsageDB is the usage database of the simulation (time-based fair share, C09).
@@ -315,6 +319,17 @@ func usageParams(cfg SchedConfig) *usageapi.UsageParams {
 	return p
 }
 
+// simDiscovery: what the API server announces. With dra, a server new enough for DRA serving resource.k8s.io/v1.
+func simDiscovery(dra bool) *fakediscovery.FakeDiscovery {
+	d := &fakediscovery.FakeDiscovery{Fake: &k8stesting.Fake{}}
+	if dra {
+		d.FakedServerVersion = &apiversion.Info{Major: "1", Minor: "34", GitVersion: "v1.34.0"}
+		d.Resources = []*metav1.APIResourceList{{GroupVersion: "resource.k8s.io/v1", APIResources: []metav1.APIResource{
+			{Name: "resourceclaims", Kind: "ResourceClaim", Namespaced: true}, {Name: "resourceslices", Kind: "ResourceSlice"}, {Name: "deviceclasses", Kind: "DeviceClass"}}}}
+	}
+	return d
+}
+
 type SchedActor struct {
 	API        *SimAPI
 	Clients    *Clients
@@ -338,7 +353,7 @@ func NewSchedActor(api *SimAPI, cfg SchedConfig, hooks SessionHooks) *SchedActor
 		FullHierarchyFairness:       params.FullHierarchyFairness,
 		AllowConsolidatingReclaim:   params.AllowConsolidatingReclaim,
 		NumOfStatusRecordingWorkers: 1,
-		DiscoveryClient:             &fakediscovery.FakeDiscovery{Fake: &k8stesting.Fake{}},
+		DiscoveryClient:             simDiscovery(cfg.DRA),
 		UsageDBClient:               usageClient(cfg),
 		UsageDBParams:               usageParams(cfg),
 	})
